@@ -118,6 +118,7 @@ type obs struct {
 	Links map[string]string
 	Sigs  map[string]map[string]string // a -> r -> "alg|certname"
 	Accts map[string]string
+	Err   string // a read of the real state panicked
 }
 
 func (s *state) project(ctx sdk.Context) obs {
@@ -138,7 +139,12 @@ func (s *state) project(ctx sdk.Context) obs {
 	}
 	for _, a := range s.addrs {
 		for _, r := range s.refs {
-			sg, err := k.GetSignature(ctx, s.storageKey(a, r))
+			var sg *stypes.Signature
+			var err error
+			if p := env.Try(func() { sg, err = k.GetSignature(ctx, s.storageKey(a, r)) }); p != "" {
+				o.Err = fmt.Sprintf("reading the stored signature of (%s,%s) panicked: %s", a, r, p)
+				continue
+			}
 			if err != nil {
 				continue
 			}
@@ -317,6 +323,10 @@ func apply(w *walk.Worker, ctx sdk.Context, e *graph.Edge, path []*graph.Edge, g
 		}
 	}
 	o := s.project(ctx)
+	if o.Err != "" {
+		fail("C20", "panic", "sig.panic.read."+name, o.Err, nil, nil)
+		return ctx, fs, true
+	}
 	// --- C15 directly on the real store: a published link is never overwritten or removed (export is judged by C12)
 	if name != "export" {
 		for r, l := range pre.Links {
@@ -384,6 +394,11 @@ func short(s string) string {
 // linkKey is the store key of a model key: the hash of the reference id, or - for the model's other keys "<ref>^U", "<ref>^S" -
 // a string that is no reference id's hash but as close to one as a signer can make it (upper case, trailing space).
 func (s *state) linkKey(name string) string {
+	if strings.HasSuffix(name, "^K") {
+		// the key under which a signature of (address, reference id) is stored: links and signatures must stay apart
+		ar := strings.SplitN(strings.TrimSuffix(name, "^K"), ":", 2)
+		return s.storageKey(ar[0], ar[1])
+	}
 	if i := strings.Index(name, "^"); i >= 0 {
 		h := util.CalculateHash(s.ref[name[:i]])
 		switch name[i+1:] {
